@@ -223,12 +223,14 @@ def judgeLog (line : String) : Option String :=
 def judgeApp (prop : String) (line : String) : Option String :=
   let toks := (line.trimAscii.toString.splitOn " ").filter (· ≠ "")
   match toks with
-  | ["A", tr, src, dst, sp, dp, _ck, h, r, pa] =>
+  | "A" :: tr :: src :: dst :: sp :: dp :: _ck :: h :: r :: pa :: rest =>
     match parseIp src, parseIp dst, unhex h with
     | some s, some d, some pl =>
       if r.startsWith "PANIC" then some "V skip 0 panic" else
+      let forced : Option Nat := match rest with | [f] => f.toNat? | _ => none
       let o : Spec.AppObs := { tcp := tr == "tcp", src := s, dst := d, sport := sp.toNat?.getD 0, dport := dp.toNat?.getD 0,
-                               payload := pl, reply := if r == "-" then none else unhex r, portAfter := pa.toNat?.getD 0 }
+                               payload := pl, reply := if r == "-" then none else unhex r, portAfter := pa.toNat?.getD 0,
+                               forced := forced }
       let v := match prop with
         | "C10" => Spec.judgeC10 o
         | "C13" => Spec.judgeC13 o
